@@ -270,3 +270,14 @@ Fixpoint mon_steps (i : nat) (pre : store) (l : list ostep) : list (nat * nat) :
 
 Definition monitor_failures (hs : list hist) : list (nat * (nat * nat)) :=
   flat_map (fun ih => map (fun m => (fst ih, m)) (mon_steps 0 (hs_init (snd ih)) (hs_steps (snd ih)))) (number 0 hs).
+
+(** * Hex literals: the case files write byte strings as [hx "0a1b…"] (parsed
+    far faster than list notation; decoded inside [vm_compute]) *)
+Definition hex_digit (a : ascii) : N :=
+  let n := N_of_ascii a in
+  if (n <? 58)%N then (n - 48)%N else (n - 87)%N.
+Fixpoint hx (s : string) : bytes :=
+  match s with
+  | String a (String b t) => byte_of_N (hex_digit a * 16 + hex_digit b)%N :: hx t
+  | _ => []
+  end.
